@@ -96,6 +96,8 @@ pub struct Shard {
     pub args: Args,
     pub evaluations: u64,
     pub distinct: HashSet<u64>,
+    /// Second distinct-set (e.g. slot-state vectors seen).
+    pub aux: HashSet<u64>,
     pub counters: BTreeMap<String, u64>,
     pub samples: Vec<Value>,
     pub violations: Vec<Violation>,
@@ -112,6 +114,7 @@ impl Shard {
             args: args.clone(),
             evaluations: 0,
             distinct: HashSet::new(),
+            aux: HashSet::new(),
             counters: BTreeMap::new(),
             samples: Vec::new(),
             violations: Vec::new(),
@@ -142,6 +145,10 @@ impl Shard {
         if let Some(h) = nontrivial_hash {
             self.distinct.insert(h);
         }
+    }
+
+    pub fn distinct_aux(&mut self, h: u64) {
+        self.aux.insert(h);
     }
 
     pub fn sample(&mut self, v: Value) {
@@ -191,6 +198,7 @@ impl Shard {
             "tier": self.args.tier,
             "evaluations": self.evaluations,
             "distinct": distinct,
+            "aux_distinct": self.aux.iter().copied().collect::<Vec<u64>>(),
             "counters": self.counters,
             "samples": self.samples,
             "observations": self.observations,
